@@ -32,6 +32,11 @@ pub struct C11Case {
     /// model's identifier invariant
     #[serde(default)]
     pub history: Option<crate::sim::Scenario>,
+    /// after the long history: the connection is lost with whatever is still outstanding, the
+    /// session is resumed through the hook, and more identifiers are allocated (the kept operations
+    /// are then QoS 1 publishes, which a resumed session re-sends)
+    #[serde(default)]
+    pub resume_after: bool,
 }
 
 pub struct C11;
@@ -62,11 +67,12 @@ impl Property for C11 {
                 0..40,
             ),
         )
-            .prop_map(|(total, handles, salt, keep)| C11Case { total, handles, salt, keep, threads: false, history: None })
+            .prop_map(|(total, handles, salt, keep)| C11Case { total, handles, salt, keep, threads: false, history: None, resume_after: false })
             .boxed();
-        let long = (s, prop::bool::weighted(0.25))
-            .prop_map(|(mut c, t)| {
+        let long = (s, prop::bool::weighted(0.25), any::<bool>())
+            .prop_map(|(mut c, t, r)| {
                 c.threads = t;
+                c.resume_after = r && !t;
                 c
             })
             .boxed();
@@ -94,7 +100,7 @@ impl Property for C11 {
                 // several clones from the outset
                 events.insert(0, Ev::CloneHandle);
                 events.insert(0, Ev::CloneHandle);
-                C11Case { total: 0, handles: 0, salt: 0, keep: vec![], threads: false, history: Some(Scenario { receive_max, max_packet_size, id_offset, prologue, events }) }
+                C11Case { total: 0, handles: 0, salt: 0, keep: vec![], threads: false, resume_after: false, history: Some(Scenario { receive_max, max_packet_size, id_offset, prologue, events }) }
             });
         prop_oneof![1 => long, 400 => hist].boxed()
     }
@@ -102,6 +108,26 @@ impl Property for C11 {
     fn cases(tier: Tier) -> u32 {
         // about 1 in 400 cases is a long history (66 000 - 140 000 operations)
         tier.pick(6400, 80_000)
+    }
+
+    /// a history that ends just past the wrap with publishes outstanding on both sides of it, and
+    /// is then resumed on a new connection
+    fn exhaustive(_tier: Tier, worker: usize, _workers: usize) -> Box<dyn Iterator<Item = C11Case>> {
+        let mut v = vec![];
+        if worker == 0 {
+            for (total, handles) in [(65_540u32, 1u8), (65_560, 3)] {
+                v.push(C11Case {
+                    total,
+                    handles,
+                    salt: 7,
+                    keep: vec![(65_500, 60_000), (65_531, 60_000), (65_536, 60_000), (65_537, 60_000)],
+                    threads: false,
+                    history: None,
+                    resume_after: true,
+                });
+            }
+        }
+        Box::new(v.into_iter())
     }
 
     fn max_shrink_iters() -> u32 {
@@ -141,7 +167,8 @@ impl Property for C11 {
         let plan = WritePlan::default();
         let mut w = World::new();
         w.poll_budget = 200_000_000; // long histories: hundreds of thousands of operations
-        if let Err(e) = connect_and_run(&mut w, ConnectSpec::default(), &default_connack(), &plan) {
+        let spec11 = ConnectSpec { session_expiry: Some(u32::MAX), client_id: Some("c11".into()), ..Default::default() };
+        if let Err(e) = connect_and_run(&mut w, spec11.clone(), &default_connack(), &plan) {
             return Outcome::fail("HARNESS/prologue", e);
         }
         for _ in 1..case.handles.max(1) {
@@ -180,6 +207,7 @@ impl Property for C11 {
             }
             let k = kind_at(case.salt, i);
             let kind: u8 = match k {
+                _ if case.resume_after && keep.contains_key(&i) => 0,
                 0..=3 => 0,
                 4..=6 => 1,
                 7..=8 => 2,
@@ -268,6 +296,67 @@ impl Property for C11 {
                 // whether an acknowledged operation completes is C05's claim, not C11's
                 o.excluded.push("operation acknowledged but still pending (not judged here)".into());
                 break;
+            }
+        }
+        // the session, with what is still outstanding, is resumed on a new connection: the
+        // identifiers allocated there must stay clear of the exchanges that were resumed
+        if case.resume_after && o.fail.is_none() && o.excluded.is_empty() && !outstanding.is_empty() {
+            o.class("resumed-after-the-long-history");
+            w.tick();
+            w.reader.set_eof();
+            w.quiesce(false);
+            if w.run_result.is_some() && w.mark_disconnected(0) && w.set_up_again() {
+                let spec2 = ConnectSpec { clean_start: Some(false), ..spec11.clone() };
+                if connect_and_run(&mut w, spec2, &rc::Connack { session_present: true, ..Default::default() }, &plan).is_ok() {
+                    w.sync_wire();
+                    let mut seen2 = w.pkts.len();
+                    let mut fresh: BTreeSet<u16> = BTreeSet::new();
+                    for j in 0..12u32 {
+                        w.tick();
+                        let spec = match j % 3 {
+                            0 => OpSpec::Publish(PublishSpec { qos: Some(1), topic: Some("t".into()), ..Default::default() }),
+                            1 => OpSpec::Publish(PublishSpec { qos: Some(2), topic: Some("t".into()), ..Default::default() }),
+                            _ => OpSpec::Unsubscribe(UnsubscribeSpec { filters: vec!["f".into()], user_props: vec![] }),
+                        };
+                        let h = (j as usize) % (case.handles.max(1) as usize);
+                        if w.start_op(h, spec).is_none() {
+                            break;
+                        }
+                        w.quiesce(false);
+                        if let Some((who, m)) = w.panics.first() {
+                            o.fail = Some(Failure { sig: format!("C11/panic/{}", panic_sig(m)), msg: format!("allocation after the resumption panicked in {who}: {m}") });
+                            break;
+                        }
+                        w.sync_wire();
+                        let mut pid = None;
+                        for p in &w.pkts[seen2..] {
+                            match &p.decoded {
+                                Ok(rc::Packet::Publish(x)) if !x.dup => pid = x.pid,
+                                Ok(rc::Packet::Unsubscribe(x)) => pid = Some(x.pid),
+                                _ => {}
+                            }
+                        }
+                        seen2 = w.pkts.len();
+                        let Some(pid) = pid else { break };
+                        if pid == 0 {
+                            o.fail = Some(Failure { sig: "C11/packet-identifier-zero".into(), msg: format!("allocation #{} after the resumption", j + 1) });
+                            break;
+                        }
+                        if outstanding.contains_key(&pid) || !fresh.insert(pid) {
+                            o.fail = Some(Failure {
+                                sig: "C11/identifier-reused-while-outstanding".into(),
+                                msg: format!(
+                                    "after {} operations the session was resumed with {} exchanges outstanding (identifiers {:?}); allocation #{} on the new connection got packet identifier {pid}, which is still in use",
+                                    case.total,
+                                    outstanding.len(),
+                                    outstanding.keys().take(8).collect::<Vec<_>>(),
+                                    j + 1
+                                ),
+                            });
+                            break;
+                        }
+                    }
+                }
             }
         }
         o.nontrivial = case.total > 65_536 && crossed_with_outstanding;
